@@ -320,7 +320,8 @@ def _tree_to_objects(
                     change.path[1], change.kind[1], target, other_parent_trees
                 )
             except KeyError:
-                if change.changed_content:
+                # A symlink that used to have a banned name was never exported.
+                if change.changed_content or change.name[0] in BANNED_FILENAMES:
                     yield (
                         change.path[1],
                         blob,
